@@ -45,11 +45,36 @@ def write_replay(oid, payload):
 
 
 def prove_pairs(res, oid, pairs, hyp=None, sampler=None, pv=None, call=None, backend="nf", subst=None,
-                seed=0, rtol=1e-6, expect_fail=False):
+                seed=0, rtol=1e-6, expect_fail=False, signvars=None, prec="d"):
     """Discharge `lhs == rhs` for every (entry, lhs, rhs) in pairs with the nf back end.
     On failure look for a numeric witness (inputs from `sampler` restricted to the path of `pv`) and replay it
     natively through `call` = (extract, fn, bufs).  One record per entry."""
     t0 = time.time()
+    if signvars:
+        # case split on the sign of scalar inputs that occur under sqrt(x^2) (parity of sin/cos, A2)
+        import itertools
+        allok = True
+        for signs in itertools.product((1, -1), repeat=len(signvars)):
+            m = {nm: dd.neg(dag.var(nm, prec=prec)) for nm, sg in zip(signvars, signs) if sg < 0}
+            prs = [(e, dd.subst([l], m)[0], dd.subst([r], m)[0]) for e, l, r in pairs] if m else pairs
+
+            def hyp2(ctx, _h=hyp):
+                if _h:
+                    _h(ctx)
+                for nm in signvars:
+                    ctx.nonneg.add(ctx.atom(("var", nm), nm))
+            sfx = "" if all(sg > 0 for sg in signs) else "~neg(" + ",".join(nm for nm, sg in zip(signvars, signs) if sg < 0) + ")"
+            sm = None
+            if sampler is not None:
+                def sm(rng, _s=sampler, _signs=signs):
+                    e = _s(rng)
+                    for nm in signvars:
+                        e[nm] = abs(e[nm])     # the substituted expression reads -nm where the sign is negative
+                    return e
+            ok = prove_pairs(res, oid + sfx, prs, hyp2, sm, None if m else pv, None if m else call, backend, subst, seed, rtol, expect_fail,
+                             signvars=None, prec=prec)
+            allok = allok and ok
+        return allok
     try:
         ctx, out = engine.nf_prove(pairs, hyp, subst)
     except (poly.NotPolynomial, ZeroDivisionError, NotImplementedError) as e:
@@ -60,9 +85,12 @@ def prove_pairs(res, oid, pairs, hyp=None, sampler=None, pv=None, call=None, bac
     res.assumptions |= set(ctx.assumptions)
     allok = True
     failed = [(e, l, r) for (e, l, r), (_, ok, _) in zip(pairs, out) if not ok]
+    if expect_fail:
+        res.add(oid, "canary-refuted" if failed else "canary-not-refuted", backend, dt)
+        return not failed
     for (entry, l, r), (_, ok, msg) in zip(pairs, out):
         if ok:
-            res.add("%s/%s" % (oid, entry), "proved" if not expect_fail else "canary-not-refuted", backend, dt)
+            res.add("%s/%s" % (oid, entry), "proved", backend, dt)
     if failed:
         allok = False
         wit = None
